@@ -230,7 +230,11 @@ def run(report, p):
             continue
         for n in walk_no_nested(f.node):
             if isinstance(n, ast.Attribute) and _is_updater_expr(p, n.value, f, ucs) and not (isinstance(parent(n), ast.Call) and parent(n).func is n and n.attr in ("join",)):
-                if fq not in cbq:
+                from .common import callers_of as _callers_of
+
+                cs_ = _callers_of(p, fq)
+                only_from_callbacks = (bool(cs_) and all(cf_.qual in cbq for cf_, _ in cs_)) or (not cs_ and getattr(p, 'inline_from', None) is not None and any(cf_.qual in cbq for cf_, _ in _callers_of(p.inline_from, fq)) and all(cf_.qual in cbq for cf_, _ in _callers_of(p.inline_from, fq)))
+                if fq not in cbq and not only_from_callbacks:
                     r4.check(False, f, n, f"update checker state `{norm(n)}` is used outside a result callback (main thread could act on it before/while the command runs)")
                 else:
                     g = cfg_of(f)
